@@ -206,7 +206,11 @@ impl Check for C08Check {
     }
     fn phases(&self, _tier: Tier) -> Vec<Phase> {
         let n = truth_values().len() as u64;
-        vec![Phase::exhaustive("binary-matrix", BINARY.len() as u64 * n * n).with_chunk(512), Phase::exhaustive("unary-matrix", UNARY.len() as u64 * n).with_chunk(16)]
+        vec![
+            Phase::exhaustive("binary-matrix", BINARY.len() as u64 * n * n).with_chunk(512),
+            Phase::exhaustive("unary-matrix", UNARY.len() as u64 * n).with_chunk(16),
+            Phase::exhaustive("identifier-against-every-input-type", n).with_chunk(4),
+        ]
     }
     fn run(&self, _tier: Tier, phase: usize, input: &Input, ctx: &mut CaseCtx) {
         let vals = truth_values();
@@ -220,6 +224,35 @@ impl Check for C08Check {
             (1, Input::Index(i)) => {
                 let ins = UNARY[(*i / n) as usize];
                 self.judge(ins, &vals[(*i % n) as usize], None, ctx);
+            }
+            (2, Input::Index(i)) => {
+                // an identifier looked up in an input value of a type that cannot hold names: no error, host asked once, unit if it declines
+                let v = &vals[*i as usize];
+                ctx.render(|| format!("identifier `zz` with $ = {} ({})", v, v.type_name()));
+                ctx.class("identifier-lookup");
+                ctx.nontrivial(fnv(format!("resolve|{}", v).as_bytes()));
+                let zz = garnish_lang_simple_data::symbol_value("zz");
+                for imp in Impl::BOTH {
+                    for (mode, state) in [("declining", HostState::default()), ("accepting", HostState { resolve_script: vec![(zz, 4242)], ..HostState::default() })] {
+                        ctx.sub_evals += 1;
+                        let (got, log) = crate::checks::hostrun::run_hosted(imp, "zz", None, v, &state, 200);
+                        let resolves = log.iter().filter(|c| matches!(c, Call::Resolve(s) if *s == zz)).count();
+                        let what = format!("identifier `zz` with $ = {} on {} with a {} host", v, imp.name(), mode);
+                        match got {
+                            crate::checks::c01::Got::Value(r) => {
+                                if resolves != 1 {
+                                    ctx.fail(format!("resolve-called-{}-times:{}", resolves, v.type_name()), format!("{}: resolve callback invoked {} times", what, resolves));
+                                }
+                                let ok = matches!((&r, mode), (V::Unit, "declining") | (V::Int(4242), "accepting"));
+                                if !ok {
+                                    ctx.fail(format!("wrong-result-after-{}:Resolve:{}", mode, v.type_name()), format!("{}: result {}", what, r));
+                                }
+                            }
+                            crate::checks::c01::Got::HarnessError(_) => {}
+                            other => ctx.fail(format!("identifier-lookup-fails:{}", v.type_name()), format!("{}: {:?}", what, other)),
+                        }
+                    }
+                }
             }
             _ => {}
         }
